@@ -144,7 +144,7 @@ pub fn finalize(orig: &[Line], draft: Draft, policy: u8, touched: &mut u8) -> Ve
             policy & D_EMPTY_FINAL_NL != 0
         }
     };
-    let mut default_term = |touched: &mut u8| match style {
+    let default_term = |touched: &mut u8| match style {
         Style::Lf => Term::Lf,
         Style::Crlf => Term::Crlf,
         Style::Mixed => Term::Any,
@@ -171,6 +171,10 @@ pub fn finalize(orig: &[Line], draft: Draft, policy: u8, touched: &mut u8) -> Ve
             }
         };
         out.push((text, term));
+    }
+    // canonical form: an empty last line without terminator contributes no bytes
+    while matches!(out.last(), Some((t, Term::None)) if t.is_empty()) {
+        out.pop();
     }
     out
 }
@@ -205,7 +209,7 @@ impl MFile {
             MContent::Lines(l) => render(l),
         }
     }
-    /// Does `actual` satisfy the expectation? `ignore_terms`: compare line texts only.
+    /// Does `actual` satisfy the expectation? `ignore_terms`: "\n" and "\r\n" are interchangeable.
     pub fn matches(&self, actual: &[u8], ignore_terms: bool) -> bool {
         match &self.content {
             MContent::Raw(b) => b == actual,
@@ -218,10 +222,12 @@ impl MFile {
                     return false;
                 }
                 exp.iter().zip(got.iter()).all(|((et, ek), (gt, gk))| {
+                    // a missing terminator (final-newline state) is never ignored
                     et == gt
-                        && (ignore_terms
-                            || ek == gk
-                            || (*ek == Term::Any && matches!(gk, Term::Lf | Term::Crlf)))
+                        && (ek == gk
+                            || (*ek != Term::None
+                                && *gk != Term::None
+                                && (ignore_terms || *ek == Term::Any)))
                 })
             }
         }
@@ -551,8 +557,28 @@ pub fn add_content(lines: &[String]) -> Vec<u8> {
     out
 }
 
-/// Apply ops in order. `Err((op index, cause))`.
+/// Generator-health statistics gathered while applying (never part of a verdict).
+#[derive(Debug, Clone, Default)]
+pub struct Stats {
+    /// hunks whose before-lines also occur somewhere before the cursor
+    pub occurs_before_cursor: u32,
+    /// hunks whose before-lines occur more than once at or after the cursor
+    pub repeated_after_cursor: u32,
+}
+
 pub fn apply(tree: &Tree, ops: &[POp], policy: u8, touched: &mut u8) -> Result<Tree, (usize, Cause)> {
+    let mut st = Stats::default();
+    apply_stats(tree, ops, policy, touched, &mut st)
+}
+
+/// Apply ops in order. `Err((op index, cause))`.
+pub fn apply_stats(
+    tree: &Tree,
+    ops: &[POp],
+    policy: u8,
+    touched: &mut u8,
+    stats: &mut Stats,
+) -> Result<Tree, (usize, Cause)> {
     let mut t = tree.clone();
     for (idx, op) in ops.iter().enumerate() {
         let fail = |c: Cause| Err((idx, c));
@@ -647,6 +673,12 @@ pub fn apply(tree: &Tree, ops: &[POp], policy: u8, touched: &mut u8) -> Result<T
                     let Some(pos) = find_from(&draft, &before, cursor) else {
                         return fail(Cause::Hard("context_not_found"));
                     };
+                    if matches!(find_from(&draft, &before, 0), Some(p0) if p0 < pos) {
+                        stats.occurs_before_cursor += 1;
+                    }
+                    if find_from(&draft, &before, pos + 1).is_some() {
+                        stats.repeated_after_cursor += 1;
+                    }
                     let n = splice_hunk(&mut draft, pos, h);
                     cursor = pos + n;
                 }
@@ -726,6 +758,7 @@ pub struct Eval {
     /// (policy, outcome) for every combination of the choices this patch meets
     pub outcomes: Vec<(u8, Result<Tree, (usize, Cause)>)>,
     pub touched: u8,
+    pub stats: Stats,
 }
 
 pub fn evaluate(tree: &Tree, ops: &[POp]) -> Eval {
@@ -747,14 +780,18 @@ pub fn evaluate(tree: &Tree, ops: &[POp]) -> Eval {
         }
     }
     let mut outcomes = Vec::new();
+    let mut stats = Stats::default();
     let mut sub = touched;
     loop {
         let mut t = 0u8;
-        outcomes.push((sub, apply(tree, ops, sub, &mut t)));
         if sub == 0 {
+            outcomes.push((sub, apply_stats(tree, ops, sub, &mut t, &mut stats)));
             break;
         }
+        outcomes.push((sub, apply(tree, ops, sub, &mut t)));
         sub = (sub - 1) & touched;
     }
-    Eval { outcomes, touched }
+    // the strict reading (policy 0) first: it is the one shown in failure details
+    outcomes.reverse();
+    Eval { outcomes, touched, stats }
 }
